@@ -1,8 +1,8 @@
 SPECIFICATION Spec
 CONSTANTS
-  NEvents = 3
-  Clients = {"c1", "c2"}
-  MaxReq = 2
+  NEvents = 2
+  Clients = {"c1", "c2", "c3"}
+  MaxReq = 1
   Endpoints = {"pause", "continue", "state", "now", "tick", "component", "field", "buffers", "progress"}
   PauseWaits = FALSE
   Atomic = FALSE
